@@ -19,11 +19,18 @@ Expect(cond, subj, owner, msg) == IF cond THEN Ok(subj) ELSE V("mismatch", subj,
 \* return values are compared tag first, so that a value of the wrong shape is a mismatch, not an evaluation error
 RetEq(a, b) == a.t = b.t /\ a.v = b.v
 
+\* a negative first argument of a positional method encodes a position near usize::MAX (the harness decodes it): it is
+\* beyond every length; the offset a failed `replace` reports is then not representable here and left open
+PosMethods == {"remove", "get", "get_mut", "copy", "yank", "shove", "pop_vec", "copy_vec", "equal_at", "replace"}
 JudgeStack(e, pre) ==
-  LET subj == "stack." \o e.act.m IN
+  LET subj == "stack." \o e.act.m
+      huge == e.act.m \in PosMethods /\ e.act.args[1] < 0
+      args == IF huge THEN [e.act.args EXCEPT ![1] = MaxInt - 4] ELSE e.act.args
+  IN
   IF Crashed(e) THEN V("crash", subj, "C16", e.post.msg)
-  ELSE LET r == StackOp(e.act.elem, e.act.m, e.act.args, pre.s) IN
-       Expect(e.post.s = r.post /\ RetEq(e.ret, r.ret), subj, "C16", "contents or return value differ from the plain sequence")
+  ELSE LET r == StackOp(e.act.elem, e.act.m, args, pre.s) IN
+       Expect(e.post.s = r.post /\ (IF huge /\ e.act.m = "replace" THEN e.ret.t = "err" ELSE RetEq(e.ret, r.ret)),
+              subj, "C16", "contents or return value differ from the plain sequence")
 
 \* The abstract level decides C17: the live items as the public API shows them (iteration oldest first, indexed
 \* access in the buffer's own order) against the bounded sequence.  The implementation-level ring (cursors and
